@@ -65,13 +65,22 @@ func grammarCase0(ctx *Ctx, i int, prec bool) (*wl.Spec, string) {
 		}
 		return fx[r.Intn(len(fx))], "fx"
 	}
+	// the expensive families are rarer in the quick tier
+	per := 40
+	if !ctx.Thorough() {
+		per = 160
+	}
+	if i%per == 21 {
+		// hundreds of productions
+		return wl.ManyRules(r.Sub("many")), "many-rules"
+	}
+	if i%per == 7 {
+		// more than 64 table columns
+		return wl.BigCFG(r.Sub("big")), "big"
+	}
 	if i%40 == 13 {
 		// any printable literal, a long (sometimes low-numbered) rule, two-digit rule numbers
 		return wideSpec(r.Sub("wide")), "wide"
-	}
-	if i%40 == 7 {
-		// more than 64 table columns
-		return wl.BigCFG(r.Sub("big")), "big"
 	}
 	p := wl.CFGParams{MaxNT: 5, MaxT: 5, MaxExtra: 6, MaxRhs: 4, Literals: true, Prec: prec && r.Chance(1, 2)}
 	if r.Chance(1, 5) {
